@@ -12,6 +12,7 @@ import (
 	"github.com/lyraproj/pcore/px"
 	"github.com/lyraproj/pcore/threadlocal"
 	"github.com/lyraproj/pcore/types"
+	"github.com/lyraproj/pcore/verifhook"
 )
 
 type (
@@ -114,6 +115,7 @@ func InitializeRuntime() RuntimeAPI {
 	}
 
 	pcoreRuntime.logger = px.NewStdLogger()
+	verifhook.Point("init.logger-set")
 
 	px.RegisterResolvableType(types.NewTypeAliasType(`Pcore::MemberName`, nil, types.TypeMemberName))
 	px.RegisterResolvableType(types.NewTypeAliasType(`Pcore::SimpleTypeName`, nil, types.TypeSimpleTypeName))
@@ -122,6 +124,7 @@ func InitializeRuntime() RuntimeAPI {
 
 	c := NewContext(loader.StaticLoader, pcoreRuntime.logger)
 	px.ResolveResolvables(c)
+	verifhook.Point("init.resolved")
 	topImplRegistry = c.ImplementationRegistry()
 	return pcoreRuntime
 }
